@@ -155,6 +155,11 @@ def subject_fuzz(case):
     out['decode_skip'] = outcome(lambda: s.decode(src, validation='skip'))
     out['lazy'] = outcome(lambda: list(s.iter_errors(xmlschema.XMLResource(src, lazy=True))))
     out['decode_strict'] = outcome(lambda: s.decode(src))
+    # defused sources (the defusing pass parses the prologue with its own SAX parser)
+    out['defused'] = outcome(lambda: list(s.iter_errors(xmlschema.XMLResource(src, defuse='always'))))
+    if isinstance(src, bytes):
+        import io
+        out['defused_file'] = outcome(lambda: list(s.iter_errors(xmlschema.XMLResource(io.BytesIO(src), defuse='always'))))
     return out
 
 
@@ -172,7 +177,7 @@ def check_fuzz(ctx, cases):
             ctx.dist('outcome', '%s/%s' % (api, r.split(':')[0] if r.startswith(('FOREIGN', 'parse')) else r))
             if r.startswith('FOREIGN') or r.startswith('parse'):
                 bad.append('%s raised %s' % (api, r))
-            elif r == 'validation' and api in ('is_valid', 'iter_errors', 'decode_lax', 'to_dict_lax', 'decode_skip', 'lazy'):
+            elif r == 'validation' and api in ('is_valid', 'iter_errors', 'decode_lax', 'to_dict_lax', 'decode_skip', 'lazy', 'defused', 'defused_file'):
                 bad.append('%s raised a validation error although the mode is not strict' % api)
         if bad:
             suspects.append((c, o, bad))
@@ -317,7 +322,8 @@ def gen_fuzz(ctx):
         cases.append({'hex': bytes(b).hex(), 'version': rng.choice(['10', '11'])})
     # XML declarations naming unknown, mismatching or multi-byte encodings (byte sources)
     body = b'<t:root xmlns:t="urn:c11"><t:item><t:n>1</t:n></t:item></t:root>'
-    for enc in ('bogus-enc', 'utf-16', 'UTF-32', 'latin-1', 'ascii', 'cp037', 'utf-7', 'x-user-defined', '', 'UTF-8 ', 'idna'):
+    for enc in ('bogus-enc', 'utf-16', 'UTF-32', 'latin-1', 'ascii', 'cp037', 'utf-7', 'x-user-defined', '', 'UTF-8 ', 'idna', 'hex', 'punycode',
+                'rot13', 'utf-8-sig', 'undefined', 'mbcs', 'unicode_escape'):
         cases.append({'hex': (b'<?xml version="1.0" encoding="' + enc.encode() + b'"?>' + body).hex(), 'version': '10'})
     cases.append({'hex': ('<?xml version="1.0" encoding="utf-16"?>' + body.decode()).encode('utf-16').hex(), 'version': '10'})
     cases.append({'hex': (b'<?xml version="1.0" encoding="latin-1"?>' + body.replace(b'>1<', b'>\xe9<')).hex(), 'version': '10'})
